@@ -10,8 +10,8 @@ ENV = "GOFLAGS=-mod=mod GOPROXY=off GOSUMDB=off GOTOOLCHAIN=local PATH=/opt/veri
 
 # id -> (technique, level text, design ref, level note)
 CHECKS = {
- "C18": ("SSA must-pass-through and error-discipline analysis of main.go and tree.Compile (go/ssa), flag-to-parameter wiring by resolved objects",
-         "Decides a structural condition that is necessary and, for the error sources that exist in main.go, sufficient: every non-nil error on the input→parse→compile→output path reaches a non-zero exit on every CFG path; a nil error is only returned after printer.Fprint(out) succeeded; flags reach the parameter of the same meaning. 'other' because it is a static path property of the CLI source, not an exploration of runs.",
+ "C18": ("SSA must-pass-through and error-discipline analysis of main.go and tree.Compile (go/ssa) with flow-sensitive value tracking, flag-to-parameter wiring and destination value shapes by resolved objects; abstract evaluation of main by the Go-subset interpreter on modelled command lines with the flag package, the files, the front end and Compile as recording natives that fail on demand",
+         "Decides a structural condition that is necessary and, for the error sources that exist in main.go, sufficient: every non-nil error on the input→parse→compile→output path reaches a non-zero exit on every CFG path; a nil error is only returned after printer.Fprint(out) succeeded; flags reach the parameter of the same meaning; the opened files are the grammar argument and -output or <grammar>.go. R-cli-semantics additionally evaluates main on 14 command lines x 6 injected failures (84 evaluations): exit status 0 exactly when Compile was given the requested destination and returned nil; source, destination (create+truncate), tree.New arguments and Strict as the command line says. 'other': static path properties of the CLI source plus bounded evaluation on a model environment, not runs of the binary.",
          "DESIGN.md §4 C18",
          "Trusts go/ssa's CFG of main.go; assumes os.Exit(≠0)/log.Fatal/panic terminate with non-zero status and that bytes.Buffer writes cannot fail; does not cover OS behaviour after Fprint returned nil."),
  "C16": ("abstract evaluation of set/set.go's source by a Go-subset interpreter on every insertion history of bounded length over a small universe, made representative by a structural order-invariance rule on the typed syntax (code points are only compared, copied and stepped by one); path-sensitive nil-guard analysis of the two sentinel links and pointer-origin (freshness) analysis of every store, on go/ssa",
